@@ -148,6 +148,8 @@ class C11(Property):
         "Flatland.C11.Proofs.decodeRefs_escape",
         "Flatland.C11.Proofs.parse_render_generic",
         "Flatland.C11.Proofs.parse_render",
+        "Flatland.C11.Proofs.transform_good",
+        "Flatland.C11.Proofs.callTag_parses",
         "Flatland.C11.Proofs.x_unescapes",
         "Flatland.C11.Proofs.xa_unescapes",
         "Flatland.C11.Proofs.xa_attribute_safe",
@@ -161,7 +163,8 @@ class C11(Property):
     ]
     level_text = "proof"
     level_note = ("escape chains are regenerated from the source and the theorems re-instantiated by `decide` on every run; "
-                  "the transforms that feed the serialiser and html.parser's agreement with the mini parser rest on correspondence")
+                  "callTag_parses carries the statement through the hand-written model of the transforms; that model's "
+                  "agreement with the code and html.parser's agreement with the mini parser rest on correspondence")
     technique = "generic theorems over .replace chains + decidable side condition on regenerated tables; parse∘render = id"
     trusted_base = [
         "python html.parser (3.12) as the 'standard HTML parser' of the statement; the Lean mini parser covers exactly the "
